@@ -28,6 +28,32 @@ type kGen struct {
 	pks       []*Term
 	processed map[string]bool
 	responses map[int]Value // dealer index -> *vss.Response this participant gave (recorded by ProcessDeal)
+	deals     map[int]*kDealInfo   // dealer index -> what this participant holds from that dealer (intrin_air.go)
+	resps     map[int]map[int]*Term // dealer index -> responder index -> status
+	suite     *kSuite               // the suite given to NewDistKeyGenerator: Schnorr nonces are drawn from ITS stream
+	long      *Term                 // long-term secret (scalar identity)
+}
+
+// schnorrSig: kyber sign/schnorr.Sign(suite, long, msg) draws its nonce k from suite.RandomStream() (schnorr.go:35) and
+// returns R || s with R = k*G. Modelled as R(nonce) ++ s(long, nonce) where nonce = the next draw of the suite's stream
+// (a seeded suite's stream is a function of its seed and the position; an unseeded one draws fresh values).
+func (in *Interp) schnorrSig(g *kGen) SliceV {
+	ts := in.ts
+	var nonce *Term
+	if g.suite == nil || (g.suite.seed.A == nil && g.suite.seed.Blob == nil) {
+		in.opq++
+		nonce = ts.FreshSym(fmt.Sprintf("cryptorand.nonce#%d", in.opq), StrSort)
+	} else {
+		in.injUFs["kyber.pick"] = true
+		nonce = ts.App("kyber.pick", StrSort, in.sliceStr(g.suite.seed), ts.Int(int64(g.suite.draws)))
+		g.suite.draws++
+	}
+	long := g.long
+	if long == nil {
+		long = ts.Str("<zero scalar>")
+	}
+	in.injUFs["schnorr.R"] = true
+	return in.strToBytes(ts.SConcat(ts.App("schnorr.R", StrSort, nonce), ts.App("schnorr.s", StrSort, long, nonce)))
 }
 
 type kVerifier struct {
@@ -106,7 +132,8 @@ func registerKyberDKG(P *Program) {
 		if s.t == nil {
 			return Tuple{in.mkBytes(make([]byte, 32)), Iface{}}
 		}
-		return Tuple{in.strToBytes(in.ts.App("kyber.scalar.enc", StrSort, s.t)), Iface{}}
+		enc := in.ts.App("kyber.scalar.enc", StrSort, s.t)
+		return Tuple{in.strToBytes(enc), Iface{}}
 	}
 	opaqueMethods["kyber.point.Mul"] = func(in *Interp, op *Opaque, args []Value) Value {
 		s := args[0].(Iface).V.(*Opaque).Data.(*kScalar)
@@ -142,7 +169,7 @@ func registerKyberDKG(P *Program) {
 		}
 		in.injUFs["kyber.pub"] = true
 		own := in.ts.App("kyber.pub", StrSort, sk.t)
-		g := &kGen{own: -1, processed: map[string]bool{}}
+		g := &kGen{own: -1, processed: map[string]bool{}, long: sk.t}
 		for i, p := range args[2].(SliceV).A {
 			enc := p.(Iface).V.(*Opaque).Data.(*kPoint).enc
 			if enc == nil {
@@ -172,6 +199,9 @@ func registerKyberDKG(P *Program) {
 			if su, ok := so.Data.(*kSuite); ok && (su.seed.A != nil || su.seed.Blob != nil) {
 				g.suiteSeed = in.sliceStr(su.seed)
 			}
+			if su, ok := so.Data.(*kSuite); ok {
+				g.suite = su
+			}
 		}
 		var cell Value = &Opaque{Kind: "kyber.dkg", Data: g}
 		return Tuple{Ptr(&cell), Iface{}}
@@ -180,6 +210,7 @@ func registerKyberDKG(P *Program) {
 	type dealDesc struct {
 		commits           []SliceV
 		status, decOK, ok *Term
+		to, share         *SliceV
 	}
 	descOf := func(in *Interp, enc Value) *dealDesc {
 		p, isP := enc.(Ptr)
@@ -205,6 +236,12 @@ func registerKyberDKG(P *Program) {
 				d.decOK = v.T
 			case "sig_ok":
 				d.ok = v.T
+			case "to":
+				b := v.Bytes
+				d.to = &b
+			case "share":
+				b := v.Bytes
+				d.share = &b
 			}
 		}
 		return d
@@ -235,13 +272,46 @@ func registerKyberDKG(P *Program) {
 		if !in.branch(nil, nil, d.decOK) {
 			return fail("vss: cannot decrypt deal")
 		}
+		if d.to != nil && !in.branch(nil, nil, ts.Eq(in.sliceStr(*d.to), g.pks[g.own])) {
+			return fail("vss: cannot decrypt deal") // sealed for another participant's key
+		}
 		g.processed[key] = true
+		{
+			di := &kDealInfo{status: d.status}
+			for _, c := range d.commits {
+				di.commits = append(di.commits, in.sliceStr(c))
+			}
+			if d.share != nil {
+				if sv, ok := in.sealTable()[in.sliceStr(*d.share)]; ok {
+					di.share = sv.term
+				}
+			}
+			if di.share == nil {
+				in.opq++
+				di.share = ts.FreshSym(fmt.Sprintf("dkg.foreign.share#%d", in.opq), StrSort)
+			}
+			if g.deals == nil {
+				g.deals = map[int]*kDealInfo{}
+			}
+			g.deals[i] = di
+			if g.resps == nil {
+				g.resps = map[int]map[int]*Term{}
+			}
+			if g.resps[i] == nil {
+				g.resps[i] = map[int]*Term{}
+			}
+			g.resps[i][g.own] = d.status
+			// dkg.go ProcessDeal: "set his response to approval since he won't issue his own response for his own deal"
+			if _, has := g.resps[i][i]; !has {
+				g.resps[i][i] = ts.True()
+			}
+		}
 		rt, vrt := respT()
 		inner := in.zero(vrt).(Struct)
 		inner[0] = in.mkBytes([]byte("session"))
 		inner[1] = ts.BV(32, uint64(g.own))
 		inner[2] = d.status
-		inner[3] = in.mkBytes([]byte("sig"))
+		inner[3] = in.schnorrSig(g)
 		var ic Value = inner
 		if g.responses == nil {
 			g.responses = map[int]Value{}
